@@ -58,3 +58,14 @@ Theorem C10_clamp_power_is_source : forall power cs_cur cs_max cs_min veh_min : 
   @clamp_power_src R RNum power cs_cur cs_max cs_min veh_min = @clamp_power R RNum power cs_cur cs_max cs_min veh_min.
 Proof. intros. apply clamp_power_is_source. Qed.
 Print Assumptions C10_clamp_power_is_source.
+
+(* ---- the executable (Q) instance that is run against /repo and the proof (R) instance agree (Transfer*.v) ---- *)
+From Coq Require Import QArith Qreals.
+From Param Require Import Param.
+From SV Require Import Transfer TransferAll.
+Theorem C10_exec_strategy_step_transfer : forall tbl s o o' w w',
+  SV_o_Strat_o_sopts_R Q R QR o o' -> SV_o_Strat_o_sworld_R Q R QR w w' ->
+  res_R _ _ (prod_R _ _ (SV_o_Strat_o_sworld_R Q R QR) _ _ (list_R _ _ (prod_R _ _ string_R Q R QR)))
+    (@strategy_step Q (QNum tbl) s o w) (@strategy_step R (RNumT tbl) s o' w').
+Proof. exact strategy_step_transfer. Qed.
+Print Assumptions C10_exec_strategy_step_transfer.
